@@ -42,7 +42,7 @@ CLAIMS = {
         design="6 C07"),
     "C08": dict(
         technique="TLA+ oracle (Pattern.tla: Match / Multi over a pattern AST, tiny regex semantics over character sequences) + TLC generation of exact patterns and single-point variations replayed through the text grammar + TLC trace validation of random patterns",
-        text="The pattern semantics of the statement is a recursive TLA+ operator over pattern ASTs (classes by instance, field existence, regex anchored at the start of str(value) modelled on character sequences, None, [], nested, sequences with / without tail, variables with content equality for nodes, captures as slot / atom / tuple-of-slots values, empty captures on failure) plus Multi = first matching rule; TLC checks that the exact pattern of every node matches it, that generated patterns are well formed and that Multi returns the first match, and exports for the newest node of every heap the exact pattern and its variations with expected verdict and captures. The driver renders each in three whitespace styles, compiles all before matching, and matches fresh / cached / recompiled / through MultiPatternMatcher comparing captures with `is`. Random patterns of depth <= 3 written against random nodes are recorded and validated by Trace_Pattern.tla.",
+        text="The pattern semantics of the statement is a recursive TLA+ operator over pattern ASTs (classes by instance, field existence, regex anchored at the start of str(value) modelled on character sequences, None, [], nested, sequences with / without tail, variables with content equality for nodes, captures as slot / atom / tuple-of-slots values, empty captures on failure) plus Multi = first matching rule; TLC checks that the exact pattern of every node matches it, that generated patterns are well formed and that Multi returns the first match, and exports for the newest node of every heap the exact pattern and its variations with expected verdict and captures. The driver renders each in three whitespace styles, compiles all before matching, and matches fresh / cached / recompiled / through MultiPatternMatcher comparing captures with `is`. The same generator runs a second time over the pool set `ws` (own Zoo.tla: strings differing only in a run of blanks) where Gen_Pattern!Stretch adds the exact regex with every blank doubled, so that regexes differing only in white space inside the literal are compiled in one process and must keep their own verdicts. Random patterns of depth <= 3 written against random nodes are recorded and validated by Trace_Pattern.tla.",
         note="Trusted: TLC, the pattern text renderer, pools (str() of plain pool values as character sequences in Zoo.tla). Not compared (statement silent): sequence specs on str values, regex specs on node values.",
         design="6 C08"),
     "C17": dict(
